@@ -150,7 +150,9 @@ impl IndicatorInstance for WoodiesCCIInstance {
 		}
 
 		#[allow(clippy::cast_possible_wrap)]
-		let s1 = (self.s1_count.abs() == self.cfg.s1_lag as isize) as i8 * s1_cross;
+		// the signal appears on the bar where the trend CCI has stayed on one side of the zero line
+		// for exactly `s1_lag` bars (the crossing bar included)
+		let s1 = (self.s1_count.abs() == self.cfg.s1_lag as isize) as i8 * self.s1_count.signum() as i8;
 
 		IndicatorResult::new(&[turbo, trend], &[s1.into()])
 	}
